@@ -64,7 +64,7 @@ func openCustom(n *gomavlib.Node, rec *sim.Recorder, pipes []*sim.Pipe) ([]*goma
 
 func TestC13Stall(t *testing.T) {
 	rec := evid.New(t, "C13", "2..4 channels on custom transports; one transport stops accepting writes (gate) after a warm-up, 70..300 tagged items are written to all channels while it is blocked (more than the 64-item queue), then the gate opens and more items follow; oracles: every Write call returns promptly, every other channel receives every item in order while the victim is blocked and their incoming frame events keep flowing, the victim's stream is an order-preserving duplicate-free subsequence, nothing submitted before or after the blocked interval is missing, at most queue+1 items of the blocked interval are delivered late; non-trivial = more than 64 items submitted during the block; distinct by hash of the parameters")
-	rec.Require("blocked>64", "incoming-during-block")
+	rec.Require("blocked>64", "incoming-during-block", "writes-mixed")
 	evid.Check(t, rec, evid.N(120, 400), func(t *rapid.T) {
 		nch := rapid.IntRange(2, 4).Draw(t, "nch")
 		victim := rapid.IntRange(0, nch-1).Draw(t, "victim")
@@ -72,13 +72,13 @@ func TestC13Stall(t *testing.T) {
 		n2 := rapid.IntRange(70, 300).Draw(t, "during_block")
 		n3 := rapid.IntRange(1, 40).Draw(t, "after")
 		incoming := rapid.IntRange(0, 20).Draw(t, "incoming")
-		useFrames := rapid.Bool().Draw(t, "frames")
-		desc := fmt.Sprintf("channels=%d victim=%d warmup=%d blocked=%d after=%d incoming=%d writeFrames=%v", nch, victim, n1, n2, n3, incoming, useFrames)
-		if err := runC13Stall(nch, victim, n1, n2, n3, incoming, useFrames); err != nil {
+		mode := rapid.SampledFrom([]string{"messages", "frames", "mixed", "mixed"}).Draw(t, "mode")
+		desc := fmt.Sprintf("channels=%d victim=%d warmup=%d blocked=%d after=%d incoming=%d writes=%s", nch, victim, n1, n2, n3, incoming, mode)
+		if err := runC13Stall(nch, victim, n1, n2, n3, incoming, mode); err != nil {
 			evid.ReplayNote("C13", "TestC13Stall", desc+"\n"+err.Error())
 			t.Fatalf("%s\n%v", desc, err)
 		}
-		cls := []string{"blocked>64"}
+		cls := []string{"blocked>64", "writes-" + mode}
 		if incoming > 0 {
 			cls = append(cls, "incoming-during-block")
 		}
@@ -87,7 +87,7 @@ func TestC13Stall(t *testing.T) {
 	})
 }
 
-func runC13Stall(nch, victim, n1, n2, n3, incoming int, useFrames bool) error {
+func runC13Stall(nch, victim, n1, n2, n3, incoming int, mode string) error {
 	pipes := make([]*sim.Pipe, nch)
 	var endpoints []gomavlib.EndpointConf
 	for i := range pipes {
@@ -113,7 +113,7 @@ func runC13Stall(nch, victim, n1, n2, n3, incoming int, useFrames bool) error {
 		counter++
 		done := make(chan error, 1)
 		go func() {
-			if useFrames {
+			if mode == "frames" || (mode == "mixed" && c%3 != 0) {
 				fr, _ := fwdFrameCounter(c)
 				done <- n.WriteFrameAll(fr)
 			} else {
@@ -243,13 +243,7 @@ func runC13Stall(nch, victim, n1, n2, n3, incoming int, useFrames bool) error {
 	}
 	// verify streams
 	for i, p := range pipes {
-		var cs []int
-		var err error
-		if useFrames {
-			cs, err = frameCounters(p)
-		} else {
-			cs, err = counters(p)
-		}
+		cs, err := allCounters(p)
 		if err != nil {
 			return fmt.Errorf("channel %d: %v", i, err)
 		}
@@ -487,4 +481,25 @@ func runC13Failure(nch int, kind string, victim, before, after, repeat int) erro
 		}
 	}
 	return nil
+}
+
+// allCounters decodes, in wire order, the counters of both originated DEBUG messages and forwarded tagged raw frames.
+func allCounters(p *sim.Pipe) ([]int, error) {
+	var out []int
+	for k, b := range p.Writes() {
+		f, n, err := ref.Parse(b)
+		if err != nil || n != len(b) {
+			return nil, fmt.Errorf("write %d is not one whole frame: %x", k, b)
+		}
+		if f.ID == debugMsgID {
+			v, derr := lay(debugMsgID).Decode(f.Payload, f.V2)
+			if derr != nil {
+				return nil, derr
+			}
+			out = append(out, int(v.(*common.MessageDebug).TimeBootMs))
+		} else if _, idx, ok := identifyFlat(f); ok {
+			out = append(out, idx)
+		}
+	}
+	return out, nil
 }
